@@ -920,7 +920,17 @@ class SStr:
     def split(self, sep=None, maxsplit=-1):
         self._noatom("split")
         if maxsplit != -1:
-            raise EngineError("split(maxsplit)")
+            if sep is None:
+                raise EngineError("split(None, maxsplit)")
+            rest, out = self, []
+            for _ in range(maxsplit):
+                a, s_, b = SStr.of(rest).partition(sep)
+                if isinstance(s_, str) and s_ == "":
+                    break       # separator not found (it is never empty)
+                out.append(a)
+                rest = b
+            out.append(rest)
+            return out
         out, cur = [], []
         if sep is None:
             for c in self.cs:
@@ -934,37 +944,42 @@ class SStr:
                 out.append(SStr.mk(cur))
             return out
         sep = SStr.of(sep)
-        if len(sep.cs) != 1 or not isinstance(sep.cs[0], int):
-            raise EngineError("split on a multi-character or symbolic separator")
-        s = {sep.cs[0]}
-        for c in self.cs:
-            if char_in(c, s):
-                out.append(SStr.mk(cur))
-                cur = []
+        if not sep.cs:
+            raise ValueError("empty separator")
+        sep._noatom("split separator")
+        m = len(sep.cs)
+        i, start = 0, 0
+        while i + m <= len(self.cs):
+            if EX.branch(SStr(self.cs[i:i + m]).eq_expr(sep)):
+                out.append(SStr.mk(self.cs[start:i]))
+                i += m
+                start = i
             else:
-                cur.append(c)
-        out.append(SStr.mk(cur))
+                i += 1
+        out.append(SStr.mk(self.cs[start:]))
         return out
 
     def partition(self, sep):
         self._noatom("partition")
         sep_s = SStr.of(sep)
-        if len(sep_s.cs) != 1 or not isinstance(sep_s.cs[0], int):
-            raise EngineError("partition on a multi-character or symbolic separator")
-        for i, c in enumerate(self.cs):
-            if char_in(c, {sep_s.cs[0]}):
-                return SStr.mk(self.cs[:i]), sep, SStr.mk(self.cs[i + 1:])
-        return self, "", ""
+        if not sep_s.cs:
+            raise ValueError("empty separator")
+        sep_s._noatom("partition separator")
+        i = self.find_first(sep_s, 0)
+        if i == -1:
+            return self, "", ""
+        return SStr.mk(self.cs[:i]), sep, SStr.mk(self.cs[i + len(sep_s.cs):])
 
     def rpartition(self, sep):
         self._noatom("rpartition")
         sep_s = SStr.of(sep)
-        if len(sep_s.cs) != 1 or not isinstance(sep_s.cs[0], int):
-            raise EngineError("rpartition on a multi-character or symbolic separator")
-        for i in range(len(self.cs) - 1, -1, -1):
-            if char_in(self.cs[i], {sep_s.cs[0]}):
-                return SStr.mk(self.cs[:i]), sep, SStr.mk(self.cs[i + 1:])
-        return "", "", self
+        if not sep_s.cs:
+            raise ValueError("empty separator")
+        sep_s._noatom("rpartition separator")
+        i = self.rfind(sep_s)
+        if i == -1:
+            return "", "", self
+        return SStr.mk(self.cs[:i]), sep, SStr.mk(self.cs[i + len(sep_s.cs):])
 
     def rsplit(self, sep=None, maxsplit=-1):
         if maxsplit == -1:
